@@ -5,11 +5,7 @@ from . import common as C
 PROPS = ["C18", "C17", "C13", "C12", "C11", "C20"]
 
 
-def run():
-    ok, log = C.build_harness()
-    if not ok:
-        C.log("harness build failed:\n" + log)
-        return 1
+def generate_all():
     for p in PROPS:
         mod = importlib.import_module("vlib." + p.lower())
         if hasattr(mod, "generate"):
@@ -17,6 +13,14 @@ def run():
                 mod.generate(None)
             except Exception as ex:
                 C.log("generate %s failed: %r" % (p, ex))
+
+
+def run():
+    ok, log = C.build_harness()
+    if not ok:
+        C.log("harness build failed:\n" + log)
+        return 1
+    generate_all()
     C.coq_makefile()
     ok, out = C.coq_make(["all"], timeout=3000)
     if not ok:
